@@ -150,6 +150,8 @@ class _Work(core.System):
         if m.fault and m.fault.get('kind') == 'step' and m.fault['ordinal'] == m.ordinal and m.fault['t'] == t:
             f_ = make_fault(m.fault)
             if f_ is not None:
+                if m.fault.get('after_complete'):
+                    m.complete()          # the run ends itself and THEN fails, in the same system call (a failing wrap-up)
                 raise f_
         if t == m.stop:
             m.complete()
@@ -159,7 +161,7 @@ class _Ident(collectors.Collector):
     def collect(self):
         m = self.model
         self.records.append({'uuid': m.run_uuid, 'collector': self.id, 'params': m.params, 't': m.systems.timestep,
-                             'model_t': m.timestep, 'pid': _os.getpid(), 'ordinal': m.ordinal})
+                             'model_t': m.timestep, 'pid': _os.getpid(), 'ordinal': m.ordinal, 'class_state': type(m).latest})
 
 
 class WarmModel(core.Model):
@@ -174,6 +176,7 @@ class WarmModel(core.Model):
 class VModel(core.Model):
     """Fresh uuid per construction; stamps every record; completes at `stop`; sleeps a little so completion order varies."""
     __slots__ = ['run_uuid', 'params', 'ordinal', 'fault', 'delay', 'stop', 'ticks']
+    latest = None         # class-level state set up by the constructor (like species-wide class components / default tags / a global seed)
 
     def execute(self, n=1):
         self.ticks += n
@@ -183,6 +186,7 @@ class VModel(core.Model):
         super().__init__()
         self.ticks = 0
         self.run_uuid = _uuid.uuid4().hex
+        type(self).latest = self.run_uuid
         self.params = dict(params)
         self.stop = stop
         self.ordinal = _claim_ordinal(ctl)
